@@ -230,10 +230,13 @@ class Spec:
             raise SpecError("$deref without main_reg")
         parts = [L("["), self._deref_part(body["main_reg"], "reg", C)]
         b, c, k = body.get("register_multiplier"), body.get("constant_multiplier"), body.get("constant_offset")
-        if (b is None) != (c is None):
-            # objdump never prints an index without a scale (or vice versa): no operand has exactly these components
+        if b is None and c is not None:
+            # a scale without an index register: no AT&T operand has exactly these components
             return rx.EMPTY
-        if b is not None:
+        if b is not None and c is None:
+            # 16-bit addressing prints base and index without a scale: k(%bx,%si) -> [a+b+k]
+            parts += [L("+"), self._deref_part(b, "reg", C)]
+        elif b is not None:
             parts += [L("+"), self._deref_part(b, "reg", C), L("*"), self._deref_part(c, "const", C)]
         if k is not None:
             parts += [L("+"), self._deref_part(k, "const", C)]
